@@ -322,7 +322,7 @@ func writeEvidence(rep *report, claimed, discharged, covers int, knownHit map[st
 		Pos     string `json:"source"`
 		SSAHash string `json:"ssa_sha256_16"`
 		Mode    string `json:"arith"`
-		Obl     int    `json:"obligations"`
+		Obl     int    `json:"generated_all_properties"`
 		Err     string `json:"error,omitempty"`
 	}
 	var fns []fnInfo
@@ -404,7 +404,7 @@ func writeEvidence(rep *report, claimed, discharged, covers int, knownHit map[st
 		"errors":             rep.Errors,
 		"excluded_not_claimed": rep.Excluded,
 		"discharged_under_named_assumption": rep.AssumedDis,
-		"explanation":        "Each function listed is the real function in /repo, re-loaded and re-translated on this run; obligations = postconditions, loop-invariant establishment/preservation, callee preconditions, frame conditions and implicit-panic conditions of its contract (zz_verif_contracts.go, build tag verif). `obligations` counts claimed obligations (known findings excluded and listed separately).",
+		"explanation":        "Each function listed is the real function in /repo, re-loaded and re-translated on this run; obligations = postconditions, loop-invariant establishment/preservation, callee preconditions, frame conditions and implicit-panic conditions of its contract (zz_verif_contracts.go, build tag verif). `obligations` counts this property's claimed obligations (= discharged + violations; covers, known findings and excluded_not_claimed entries are listed separately and not counted); per_obligation lists every one of them with its back end and solver time. functions[].generated_all_properties is the number of VCs the generator emitted for that function before filtering by property tag, so it can exceed this property's share.",
 	}
 	ev := map[string]interface{}{
 		"property_id": rep.Prop,
